@@ -32,3 +32,4 @@ def run(ck):
     ops.operator_siblings(ck, "C08.R4", only=("__add__", "__sub__", "__rsub__", "__mul__"))
     fresh.no_hidden_state(ck, "C20.R8")                  # results depend on the documented state only (no caches / memos)
     pipeline.store_pipeline(ck, "C01.R2", want_bounds=False)   # nothing (no clamp in value units) sits between the input and the scaling
+    sizes.resize_rules(ck, {"refresh": "C10.R2", "restore_raw": "C10.R1"})   # a widened word is re-stored (and so moved to the Python-int carrier at 64 bits)
